@@ -4,6 +4,7 @@ import structcases
 import obs
 
 ID = "C08"
+ENV_RERUN = 40          # cases repeated from a cargo build-script environment (lib/runner.py with_build_env)
 REQUIRES = ["Agree", "StructSpec", "Truth"]
 THEOREM_REQUIRES = ["C08"]
 THEOREMS = ["C08_holds_bool", "C08_host_shareable_spec"]
